@@ -296,6 +296,10 @@ class Solver(object):
     def reorder_particles(self):
         """Re-order particles so as to coalesce memory access.
         """
+        # The arrays may have changed since the neighbour search was last
+        # updated (inlets/outlets or callbacks acting after the last stage):
+        # the ordering must be computed from the current particles.
+        self.nnps.update()
         for i in range(len(self.particles)):
             self.nnps.spatially_order_particles(i)
         # We must update after the reorder.
